@@ -394,9 +394,12 @@ func injectable(w *world.World) func(kind string) bool {
 }
 
 // runWithFault executes the scenario with the fault plan armed for the measured leg only.
-func runWithFault(c *harness.Ctx, sc *Scenario, measuredSeq int, k, k2 int) (*Scn, *node.Leg, *world.FaultPlan) {
+func runWithFault(c *harness.Ctx, sc *Scenario, measuredSeq int, k, k2 int, errs ...error) (*Scn, *node.Leg, *world.FaultPlan) {
 	s := scnFor(c, sc, nil, "C17")
 	fp := &world.FaultPlan{FailAt: k, FailAt2: k2, Injectable: injectable(s.U.W)}
+	if len(errs) > 0 {
+		fp.Err = errs[0]
+	}
 	base := s.U.N.Seq()
 	s.U.N.PreRun = func(seq int) {
 		if seq-base == measuredSeq {
@@ -443,6 +446,19 @@ func runC17(c *harness.Ctx) {
 			kind := fpk.Fired[0].Kind
 			if l.OK || l.Out != nil || l.Err == nil {
 				s.M.viol("C17", "fault-swallowed:"+sc.Func+":"+kind, fmt.Sprintf("scenario %s: dependency call #%d (%s, key %q) failed but the call returned success", sc.Name, k, kind, fpk.Fired[0].Key), l)
+			}
+			// the same fault with every other error value a dependency may return: what the error
+			// is or wraps makes no difference to "it failed"
+			for ei, e := range world.FaultErrors[1:] {
+				s, l, fpe := runWithFault(c, sc, measuredSeq, k, 0, e)
+				if len(fpe.Fired) == 0 {
+					continue
+				}
+				if l.OK || l.Out != nil || l.Err == nil {
+					s.M.viol("C17", "fault-swallowed:"+sc.Func+":"+kind, fmt.Sprintf("scenario %s: dependency call #%d (%s, key %q) failed with error %q (%T) but the call returned success", sc.Name, k, kind, fpe.Fired[0].Key, e, e), l)
+				}
+				R.Cover(fmt.Sprintf("C17/fault-error-variant:%d", ei+1))
+				R.Eval(1)
 			}
 			R.Cover("C17/fault-fired:" + sc.Func + ":" + kind)
 			R.DistinctS("C17", sc.Name, fmt.Sprint(k))
